@@ -3,6 +3,16 @@
 REFLECT = "Go reflect / runtime semantics as specified in the model (DESIGN.md 3.4)"
 
 PROPS = {
+    "C19": {
+        "gens": ["Packages"],
+        "lean": "Anko.Props.C19",
+        "streams": [{"name": "builtins", "n_quick": 2000, "n_thorough": 40000}],
+        "trusted": ["FOps instance of the driver (IEEE binary64)", "strconv outside the model's exact domain is `unsupported`",
+                    "that a Go symbol behaves as documented by Go (only the identity of each binding is checked)"],
+        "assumptions": ["range is modelled after its arguments were converted to int64 by the call machinery (C11's concern)",
+                        "toRune/toChar and the typed-slice forms are checked by the native-Go oracle only (their result types are outside the model's universe)"],
+        "partial": ["toRune/toChar/to*Slice: oracle only, no theorem"],
+    },
     "C18": {
         "gens": ["Cli"],
         "lean": "Anko.Props.C18",
@@ -42,6 +52,19 @@ PROPS = {
 
 # Texts for MANIFEST.json (level_claimed.text, level_note, technique, design_ref)
 MANIFEST_TEXT = {
+    "C19": {
+        "text": "Machine-checked proofs (Lean 4): for ALL int64 start/stop/step the range loop (mirrored from core.go, with the overflow "
+                "guard of fix b27c448) terminates, yields the progression from start with every element strictly before stop, is maximal, "
+                "is empty when the step points away, never wraps; zero step / bad arity are errors; conversion laws of toInt/toFloat/"
+                "toString/typeOf/kindOf/keys on the universe; and `decide` over the 595 package-table entries REGENERATED from packages/*.go: "
+                "each is the Go symbol it is listed under, from the package it is offered in (2 audited exceptions). Correspondence: ~7000 "
+                "range triples + every conversion builtin over the value pool through model and interpreter; oracle: big-integer reference "
+                "progression, strconv/fmt/reflect natively, misuse => error never panic.",
+        "note": "Trusted: Lean kernel; packages extractor (closed entry shapes, anything else is an extraction error); abstract float ops; "
+                "behaviour of the bound Go symbols themselves is Go's.",
+        "technique": "Lean 4 proof (induction on fuel + omega; decide over regenerated table) + differential correspondence",
+        "design_ref": "DESIGN.md section 6 (C19)",
+    },
     "C18": {
         "text": "Machine-checked proofs (Lean 4) over the decision table of the anko command whose constants and structure are REGENERATED "
                 "from anko.go on every run: exit 0 iff source obtained and vm.Execute returned no error, 4 on parse/run error, 2 on an "
